@@ -20,10 +20,44 @@ META = {
     "C07": {"engine": "nodeput", "level": "model_checking",
             "technique": "TLA+ model of per-address content evolution (Allowed); TLC explores every sequence of deliveries from the pools for one address and checks monotonicity/growth on the model; the sequences are replayed on the real node and judged by the same operators",
             "text": "All sequences (quick: length 2, thorough: length 3) over pools of scratchpad (counters 1..3, valid / foreign-signed / counter-bumped), transaction-set and register variants on the paid, unpaid and replication paths for one address are run on the real node; "
-                    "after each delivery the stored content must be one the model allows, pads never regress, sets only grow, nothing invalid is stored. Deliveries are processed one at a time (see known finding for concurrent processing).",
-            "note": _note + "; concurrent processing of two deliveries for one key is not driven by this check", "design_ref": "5 Area NodePut"},
+                    "after each delivery the stored content must be one the model allows, pads never regress, sets only grow, nothing invalid is stored. Two deliveries processed concurrently: all interleavings of their read/write sections are model-checked and replayed on the real node (lost updates = listed known finding).",
+            "note": _note + "; concurrent processing: every interleaving of the read / write sections of two replicated deliveries for one address (NodePutConc)", "design_ref": "5 Area NodePut"},
 }
 PREFIX = {"C03": ("C03_",), "C04": ("C04_",), "C07": ("C07_",)}
+
+
+def concurrent_part(v, w):
+    """Two deliveries for one address processed concurrently: every interleaving of their read / write sections."""
+    scns = []
+    for fam in ("pad", "txs", "reg"):
+        mc = tlc("nodeput", "NodePutConc", "NodePutConc_%s.cfg" % fam, w, workers=4, timeout=900)
+        v.add_model(mc)
+        if mc.violated:
+            v.violation("model:" + mc.violated, "concurrent processing breaks C07 beyond the listed known finding", {"area": "nodeput", "tlc": mc.error_text[:4000]})
+        neg = tlc("nodeput", "NodePutConc", "NodePutConc_%s_neg.cfg" % fam, w, workers=4, timeout=900)
+        if not neg.violated:
+            raise ToolError("known finding C07-concurrent-read-check-write is no longer present in the model (%s)" % fam)
+        scns += scenarios_from(mc)
+    sp = os.path.join(w, "conc_scenarios.ndjson")
+    write_ndjson(sp, scns)
+    trace = os.path.join(w, "conc_trace.ndjson")
+    run_driver("drv_node", ["--scenarios", sp, "--out", trace, "--work", os.path.join(w, "node_conc")], w, timeout=1800)
+    rep = validate_trace("nodeput", "NodePutConcTrace", "NodePutConcTrace.cfg", trace, w, timeout=1800)
+    events = read_ndjson(trace)
+    kfs = {k["id"]: k for k in kf_for("C07")}
+    conc = [e for e in events if e["ev"] == "Concurrent"]
+    for x in rep["violations"]:
+        e = events[x["line"] - 1]
+        v.violation(x["clause"], "concurrent deliveries %s / %s, sections %s -> %s" % (json.dumps(e["a"])[:120], json.dumps(e["b"])[:120], e["executed"], e["after"]),
+                    {"area": "nodeput", "scenario": {"family": e["family"], "a": e["a"], "b": e["b"], "schedule": e["schedule"]}, "event": e})
+    for x in rep.get("known", []):
+        kf = kfs.get(x["kf"])
+        if kf is None:
+            e = events[x["line"] - 1]
+            v.violation(x["clause"], "matched finding %s is not listed as known" % x["kf"], {"area": "nodeput", "scenario": {"family": e["family"], "a": e["a"], "b": e["b"], "schedule": e["schedule"]}})
+        else:
+            v.known_finding(kf, "line %d" % x["line"])
+    v.cov["concurrent_interleavings_replayed"] = len(conc)
 
 
 def run(prop, tier, replay=None):
@@ -31,6 +65,16 @@ def run(prop, tier, replay=None):
     w = workdir(prop)
     thorough = tier == "thorough"
     scn_path = os.path.join(w, "scenarios.ndjson")
+    if replay and isinstance(replay.get("scenario"), dict):
+        sp = os.path.join(w, "conc_scenarios.ndjson")
+        write_ndjson(sp, [replay["scenario"]])
+        trace = os.path.join(w, "conc_trace.ndjson")
+        build(PACKAGES)
+        run_driver("drv_node", ["--scenarios", sp, "--out", trace, "--work", os.path.join(w, "node_conc")], w, timeout=1800)
+        rep = validate_trace("nodeput", "NodePutConcTrace", "NodePutConcTrace.cfg", trace, w, timeout=1800)
+        for x in rep["violations"] + rep.get("known", []):
+            v.violation(x["clause"], "replayed concurrent scenario", {})
+        return v.finish()
     if replay:
         write_ndjson(scn_path, [replay["scenario"]])
     else:
@@ -70,6 +114,8 @@ def run(prop, tier, replay=None):
         v.violation(x["clause"], "delivery %s at line %d: res=%s beforeD=%s afterD=%s afterP=%s gained=%s derivedOK=%s contentOK=%s unverified=%s" % (
             json.dumps(e["d"]), x["line"], e["res"], e["aBeforeD"], e["aAfterD"], e["aAfterP"], e["gained"], e["derivedOK"], e["contentOK"], e["unverified"]),
             {"area": "nodeput", "scenario": scenario_of(x["line"]), "event": {k: e[k] for k in e if k != "spec"}})
+    if prop == "C07" and not replay:
+        concurrent_part(v, w)
     dl = [e for e in events if e["ev"] == "Deliver"]
     relevant = [e for e in dl if (prop != "C03" or e["d"]["path"] == "client")]
     v.cov["evaluations"] = len(dl)
